@@ -510,6 +510,54 @@ theorem writes_concat_eq_received (kd : Kind) (t : TState) (evs : List Ev) :
     | peerExit => simp [step, writtenFrom]
     | close => simp [step, writtenFrom]
 
+/-! ### Concurrent writes -/
+
+/-- whatever interleaving of two concurrent writes reaches the peer, each writer's bytes are all
+there, once and in order: for every predicate that separates the two writers' bytes the two
+projections of the merged stream are the two written strings -/
+theorem concurrent_writes_keep_each_order (p : UInt8 → Bool) (a b m : Bytes) (h : IsMerge a b m)
+    (ha : ∀ x ∈ a, p x = true) (hb : ∀ x ∈ b, p x = false) :
+    m.filter p = a ∧ m.filter (fun x => !p x) = b := by
+  induction h with
+  | nil => simp
+  | left x _ ih =>
+    have hx := ha x (by simp)
+    have := ih (fun y hy => ha y (by simp [hy])) hb
+    simp [List.filter_cons, hx, this.1, this.2]
+  | right x _ ih =>
+    have hx := hb x (by simp)
+    have := ih ha (fun y hy => hb y (by simp [hy]))
+    simp [List.filter_cons, hx, this.1, this.2]
+
+/-- conversely every byte string is a merge of its two projections, so the projection check the
+harness applies to what the peer received accepts exactly the merges -/
+theorem projections_form_a_merge (p : UInt8 → Bool) (m : Bytes) :
+    IsMerge (m.filter p) (m.filter (fun x => !p x)) m := by
+  induction m with
+  | nil => exact IsMerge.nil
+  | cons x m ih =>
+    cases hx : p x
+    · simp only [List.filter_cons, hx, Bool.not_false, if_true, Bool.false_eq_true, if_false]
+      exact IsMerge.right x ih
+    · simp only [List.filter_cons, hx, Bool.not_true, if_true, Bool.false_eq_true, if_false]
+      exact IsMerge.left x ih
+
+/-- the executable verdict of the driver is the merge relation for tagged writers -/
+theorem mergeVerdict_iff (a b m : Bytes) (ha : ∀ x ∈ a, lowByte x = true) (hb : ∀ x ∈ b, lowByte x = false) :
+    mergeVerdict a b m = true ↔ IsMerge a b m := by
+  constructor
+  · intro h
+    simp only [mergeVerdict, Bool.and_eq_true, beq_iff_eq] at h
+    have := projections_form_a_merge lowByte m
+    rw [h.1, h.2] at this
+    exact this
+  · intro h
+    have := concurrent_writes_keep_each_order lowByte a b m h ha hb
+    simp [mergeVerdict, this.1, this.2]
+
+example : IsMerge [1, 2] [200, 201] [1, 200, 201, 2] :=
+  IsMerge.left 1 (IsMerge.right 200 (IsMerge.right 201 (IsMerge.left 2 IsMerge.nil)))
+
 /-! ## The wrapper's slice and error handling -/
 
 /-- `b[0:k]` of the buffer the reader filled is exactly what the reader delivered (no zero padding,
